@@ -1,6 +1,6 @@
 """C09 -- writing and reading back any bound preserves its behaviour."""
 from ..persist import (persist_classes, rule_P1_P2, rule_P3, rule_P4_bound, rule_P5,
-                       rule_P7, rule_P8, rule_P9, rule_P10, rule_P11)
+                       rule_P7, rule_P8, rule_P9, rule_P10, rule_P11, rule_P13)
 
 LEVEL_TEXT = ('Static agreement of the writer, updater and reader tables extracted from the '
               'HDF5 code of the 8 persistable classes, plus definite-assignment analysis of '
@@ -28,6 +28,8 @@ def run(ctx):
         if u is not None:
             rule_P4_bound(ctx, cls)
     rule_P8(ctx)
+    k13 = rule_P13(ctx)
+    ctx.require(k13 >= 1, 'P13: layer loops of the emulator writer / reader not found')
     k11 = rule_P11(ctx)
     ctx.require(k11 >= 2, 'P11 found no class dispatch on a stored tag (floor: Union.read)')
     ctx.floor('P1', 40, 'key obligations')
